@@ -784,6 +784,43 @@ def frames_through_the_reader(ctx):
                                f"the reader delivered {len(g)} message(s) for this one line" + ("" if not g else f": {g[0][:200]}"))
 
 
+def decoding_is_fresh(ctx):
+    """'decoding what either backend encoded gives back the value' - every time: the same text decoded again after the first
+    result was written into gives the value again, not the written-into object (both back ends, str and bytes)."""
+    import chuk_mcp.protocol.fast_json as FJ
+
+    def scribble(v):
+        if isinstance(v, dict):
+            for x in list(v.values()):
+                scribble(x)
+            v["$scribbled"] = 1
+        elif isinstance(v, list):
+            for x in v:
+                scribble(x)
+            v.append("$scribbled")
+    texts = ["{}", "[]", '{"a":[]}', '{"a":{"b":[1]}}', "[[],{}]", '{"jsonrpc":"2.0","method":"notifications/x","params":{"data":[]}}',
+             '{"jsonrpc":"2.0","id":1,"result":{}}', '[1,[2,[3]]]', '{"k":"' + "x" * 200 + '","l":[]}']
+    saved = FJ.HAS_ORJSON
+    try:
+        for backend in ([True, False] if saved else [False]):
+            FJ.HAS_ORJSON = backend
+            for t in texts:
+                for form in ("str", "bytes"):
+                    arg = t if form == "str" else t.encode()
+                    first = FJ.loads(arg)
+                    scribble(first)
+                    again = FJ.loads(arg)
+                    case = {"decode_twice": t, "as": form, "backend": "orjson" if backend else "stdlib"}
+                    ctx.case(case, nontrivial=True)
+                    ctx.count("decode-twice:" + case["backend"])
+                    ctx.spec_total += 1
+                    if again != stdjson.loads(t):
+                        ctx.spec_violation("second-decoding-gives-the-object-written-into:" + case["backend"], case,
+                                           f"second decoding of {t[:80]!r} gave {stdjson.dumps(again)[:160]}")
+    finally:
+        FJ.HAS_ORJSON = saved
+
+
 def run(ctx):
     lib.standard_obligations(ctx, GEN, TARGETS)
     spec = lib.Driver("C17Spec")
@@ -819,6 +856,7 @@ def run(ctx):
     invalid_text_probe(ctx)
     very_deep_probe(ctx)
     frames_through_the_reader(ctx)
+    decoding_is_fresh(ctx)
     ctx.exhaustive = False
     if ctx.thorough:
         lib.coqchk(ctx, "C17")
@@ -839,6 +877,11 @@ def run(ctx):
 
 def replay(ctx, data):
     _c = data.get("case", {})
+    if isinstance(_c, dict) and "decode_twice" in _c:
+        decoding_is_fresh(ctx)
+        for f in ctx.spec_fail:
+            print("REPRODUCED", f["class"], f["detail"][:200])
+        return 1 if ctx.spec_fail else 0
     if isinstance(_c, dict) and "line" in _c and "message" in _c:
         got = anyio.run(_reader_frames, [_c["line"].encode("utf-8")])[0]
         want = json.dumps(_c["message"], sort_keys=True)
